@@ -281,6 +281,79 @@ func TestVerifC07(t *testing.T) {
 			break
 		}
 	}
+	// far-away time stamps: every power of two distance on both sides, and random 64-bit values
+	{
+		now := time.Now().Unix()
+		var tss []int64
+		for k := uint(11); k < 63; k++ {
+			d := int64(1) << k
+			for _, j := range []int64{0, 1, 300, 599, 601, -1, -300} {
+				tss = append(tss, now-d+j, now+d+j)
+			}
+		}
+		tss = append(tss, -1<<63, 1<<63-1, -1<<63+now, -1<<63+now+300, 1<<63-1-now)
+		for i := 0; i < vr.Pick(2000, 50000); i++ {
+			tss = append(tss, int64(rng.Uint64()))
+		}
+		for _, ts := range tss {
+			age := float64(now) - float64(ts)
+			if age > -3 && age < float64(L)+3 {
+				continue // inside or too close to the window
+			}
+			tok := seal(fmt.Sprintf("bob:true:%d", ts))
+			var st int
+			pan := vr.Safe(func() { st, _, _, _ = f.Check(tok) })
+			R.Case(fmt.Sprintf("far-ts:%d", ts), true)
+			R.Count("far_timestamps", 1)
+			if pan != "" || st == http.StatusOK {
+				kind := "expired"
+				if ts > now {
+					kind = "future"
+				}
+				R.Violate("c07:far-timestamp-accepted:"+kind, fmt.Sprintf("a token sealed with issue time %d (now %d, lifetime %d s) was accepted (status %d %s)", ts, now, L, st, pan), "far-ts", nil)
+				break
+			}
+		}
+	}
+	// concurrent checks of tokens with different identities (equal-length names): each must get its own identity
+	{
+		var cw sync.WaitGroup
+		var cmu sync.Mutex
+		wrongID, rejected, total := 0, 0, 0
+		first := ""
+		for g := 0; g < 16; g++ {
+			cw.Add(1)
+			go func(g int) {
+				defer cw.Done()
+				user := fmt.Sprintf("user%02d", g)
+				adm := g%2 == 0
+				_, _, tok := f.Generate(user, adm)
+				for i := 0; i < vr.Pick(3000, 30000); i++ {
+					st, _, u, a := f.Check(tok)
+					cmu.Lock()
+					total++
+					if st != http.StatusOK {
+						rejected++
+					} else if u != user || a != adm {
+						wrongID++
+						if first == "" {
+							first = fmt.Sprintf("token of (%s,%v) accepted as (%s,%v)", user, adm, u, a)
+						}
+					}
+					cmu.Unlock()
+				}
+			}(g)
+		}
+		cw.Wait()
+		R.Case("concurrent-checks", true)
+		R.Count("concurrent_checks", total)
+		if wrongID > 0 {
+			R.Violate("c07:identity-differs:concurrent-checks", fmt.Sprintf("%d of %d concurrent checks returned another token's identity; first: %s", wrongID, total, first), "concurrent-checks", nil)
+		}
+		if rejected > 0 {
+			R.Violate("c07:rejected-issued:concurrent-checks", fmt.Sprintf("%d of %d concurrent checks of fresh valid tokens were rejected", rejected, total), "concurrent-checks", nil)
+		}
+	}
 	// end to end: the same classes through /api/list of the real handler set (its own factory)
 	c07EndToEnd(R)
 	// a short-lived factory: real expiry (lifetime 1 s, wait 3 s)
